@@ -3,8 +3,11 @@
 //! Stateless: every schedule is a fresh execution (fresh directory, fresh store, fresh threads). An
 //! execution replays a decision prefix and continues with default decisions; every alternative that
 //! was available beyond the prefix and fits the budget becomes a child task. Each complete schedule
-//! is therefore executed exactly once. Levels (= deviations used: preemptions + injected faults) are
-//! run one after the other so that "bound completed" is meaningful when a wall cap hits.
+//! is therefore executed exactly once per round. Rounds are iterative deepening on the number of
+//! deviations (preemptions + injected faults): round b enumerates depth-first (bounded memory) all
+//! schedules with at most b deviations and *records* (oracles, statistics) those with exactly b; the
+//! executions with fewer deviations are re-run only to find their children ("re-expansions"). So
+//! "bound completed" is meaningful when a wall cap hits.
 use crate::conc::{run_execution, ExecResult, Scenario, Workdir};
 use crate::sched::{Action, Policy};
 use mc_common::par::WorkQueue;
@@ -57,6 +60,7 @@ pub struct FamStats {
 pub struct XStats {
 	pub scenarios: u64,
 	pub executions: u64,
+	pub reexpansions: u64,
 	pub new_decisions: u64,
 	pub replayed_decisions: u64,
 	pub executions_per_level: Vec<u64>,
@@ -85,7 +89,6 @@ pub struct XStats {
 
 struct Agg {
 	st: XStats,
-	next: Vec<Vec<Task>>,
 	viol: BTreeMap<String, XViolation>,
 	viol_total: u64,
 }
@@ -103,25 +106,27 @@ pub fn explore(scns: &[Arc<Scenario>], cfg: &XConfig, wd: &Workdir) -> (XStats, 
 	for s in scns {
 		st.per_family.entry(s.family.clone()).or_default().scenarios += 1;
 	}
-	let agg = Mutex::new(Agg { st, next: (0..=cfg.k as usize + 1).map(|_| Vec::new()).collect(), viol: BTreeMap::new(), viol_total: 0 });
+	let agg = Mutex::new(Agg { st, viol: BTreeMap::new(), viol_total: 0 });
 	let empty = Arc::new(Vec::new());
-	{
-		let mut g = agg.lock().unwrap();
-		for i in (0..scns.len()).rev() {
-			g.next[0].push(Task { scn: i, base: empty.clone(), cut: 0, alt: None, used_p: 0, used_f: 0 });
-		}
-	}
 	for level in 0..=cfg.k {
-		let tasks = std::mem::take(&mut agg.lock().unwrap().next[level as usize]);
-		let before = agg.lock().unwrap().st.executions;
-		if !tasks.is_empty() {
-			let q = WorkQueue::new(tasks);
-			let capped = q.run(cfg.threads, cfg.deadline, |t, q| run_task(scns, cfg, wd, &agg, level, t, q));
-			if capped {
-				agg.lock().unwrap().st.capped = true;
-			}
+		let mut tasks = Vec::new();
+		for i in (0..scns.len()).rev() {
+			tasks.push(Task { scn: i, base: empty.clone(), cut: 0, alt: None, used_p: 0, used_f: 0 });
 		}
-		let mut g = agg.lock().unwrap();
+		let before = agg.lock().unwrap_or_else(|e| e.into_inner()).st.executions;
+		let q = WorkQueue::new(tasks);
+		let capped = q.run(cfg.threads, cfg.deadline, |t, q| {
+			if let Err(p) = mc_common::par::guarded(|| run_task(scns, cfg, wd, &agg, level, t, q)) {
+				let mut g = agg.lock().unwrap_or_else(|e| e.into_inner());
+				if g.st.det_mismatch.len() < 5 {
+					g.st.det_mismatch.push(format!("harness panic while running a schedule: {}", p));
+				}
+			}
+		});
+		let mut g = agg.lock().unwrap_or_else(|e| e.into_inner());
+		if capped {
+			g.st.capped = true;
+		}
 		let n = g.st.executions - before;
 		g.st.executions_per_level.push(n);
 		if g.st.capped {
@@ -129,7 +134,7 @@ pub fn explore(scns: &[Arc<Scenario>], cfg: &XConfig, wd: &Workdir) -> (XStats, 
 		}
 		g.st.bound_completed = Some(level);
 	}
-	let g = agg.into_inner().unwrap();
+	let g = agg.into_inner().unwrap_or_else(|e| e.into_inner());
 	let mut v: Vec<XViolation> = g.viol.into_values().collect();
 	v.sort_by_key(|x| (x.deviations, x.schedule.len(), x.scn));
 	(g.st, v)
@@ -144,23 +149,24 @@ fn run_task(scns: &[Arc<Scenario>], cfg: &XConfig, wd: &Workdir, agg: &Mutex<Agg
 	let r: ExecResult = run_execution(scn, &prefix, &cfg.policy, wd);
 	let full: Vec<Action> = r.decisions.iter().map(|d| d.chosen).collect();
 	let full_arc = Arc::new(full.clone());
-	// children
-	let mut same: Vec<Task> = Vec::new();
-	let mut later: Vec<(u8, Task)> = Vec::new();
+	// children: every alternative beyond the prefix that fits this round's budget
+	let used = t.used_p + t.used_f;
+	let mut children: Vec<Task> = Vec::new();
 	for i in prefix.len()..r.decisions.len() {
 		for (a, pc, fc) in &r.decisions[i].alts {
 			let np = t.used_p + pc;
 			let nf = t.used_f + fc;
-			if nf > cfg.max_faults || np + nf > cfg.k {
+			if nf > cfg.max_faults || np + nf > level {
 				continue;
 			}
-			let task = Task { scn: t.scn, base: full_arc.clone(), cut: i, alt: Some(*a), used_p: np, used_f: nf };
-			if np + nf == level {
-				same.push(task);
-			} else {
-				later.push((np + nf, task));
-			}
+			children.push(Task { scn: t.scn, base: full_arc.clone(), cut: i, alt: Some(*a), used_p: np, used_f: nf });
 		}
+	}
+	if used < level {
+		// already recorded in round `used`; re-run only to expand
+		agg.lock().unwrap_or_else(|e| e.into_inner()).st.reexpansions += 1;
+		q.push_all(children);
+		return;
 	}
 	// determinism: every violating schedule twice more, a sample of the passing ones once more
 	let key = mc_common::fnv64(format!("{}#{}", t.scn, sched_string(&full)).as_bytes());
@@ -185,7 +191,7 @@ fn run_task(scns: &[Arc<Scenario>], cfg: &XConfig, wd: &Workdir, agg: &Mutex<Agg
 		}
 	}
 	{
-		let mut g = agg.lock().unwrap();
+		let mut g = agg.lock().unwrap_or_else(|e| e.into_inner());
 		let st = &mut g.st;
 		st.executions += 1;
 		st.new_decisions += (r.decisions.len() - prefix.len().min(r.decisions.len())) as u64;
@@ -271,9 +277,6 @@ fn run_task(scns: &[Arc<Scenario>], cfg: &XConfig, wd: &Workdir, agg: &Mutex<Agg
 				},
 			}
 		}
-		for (l, task) in later {
-			g.next[l as usize].push(task);
-		}
 	}
-	q.push_all(same);
+	q.push_all(children);
 }
